@@ -23,6 +23,7 @@ func runC06(c *an.Ctx) string {
 	r063Inheritance(c)
 	r064Location(c)
 	r065Siblings(c)
+	r06SchemeKeyed(c, "R06.6")
 	return explanationC06
 }
 
@@ -541,4 +542,76 @@ func r065Siblings(c *an.Ctx) {
 		}
 	}
 	c.Okf(rule, "generators#slice-reuse", "%d functions: no slice is both truncated in place and stored inside a loop", k)
+}
+
+// r06SchemeKeyed (R06.6, shared with C12): API keys are tagged per scheme
+// ("security:apikey:<scheme>", written by dsl.APIKey). Code that handles one
+// given API-key scheme - the arm `case APIKeyKind` of a switch over a scheme's
+// kind - must look the payload attribute up under that scheme's own key; the
+// bare prefix finds any scheme's key, so a requirement on scheme A would be
+// taken as satisfied (by the validator) or served (by the transports) with the
+// attribute that carries the key of scheme B.
+func r06SchemeKeyed(c *an.Ctx, rule string) {
+	n := 0
+	for _, dir := range []string{"expr", "codegen/service", "http/codegen", "grpc/codegen", "http/codegen/openapi/v2", "http/codegen/openapi/v3"} {
+		for _, f := range c.AllFuncs(dir) {
+			info := f.Pkg.TypesInfo
+			ast.Inspect(f.Decl.Body, func(nd ast.Node) bool {
+				cc, ok := nd.(*ast.CaseClause)
+				if !ok {
+					return true
+				}
+				isAPIKey := false
+				for _, e := range cc.List {
+					var id *ast.Ident
+					switch x := an.Unparen(e).(type) {
+					case *ast.Ident:
+						id = x
+					case *ast.SelectorExpr:
+						id = x.Sel
+					}
+					if id != nil {
+						if o, ok := info.Uses[id].(*types.Const); ok && o.Name() == "APIKeyKind" && o.Pkg().Path() == an.P("expr") {
+							isAPIKey = true
+						}
+					}
+				}
+				if !isAPIKey {
+					return true
+				}
+				for _, st := range cc.Body {
+					ast.Inspect(st, func(m ast.Node) bool {
+						call, ok := m.(*ast.CallExpr)
+						if !ok {
+							return true
+						}
+						for _, a := range call.Args {
+							if tv, ok := info.Types[a]; ok && tv.Value != nil {
+								if s, ok := an.ConstString(info, a); ok && strings.HasPrefix(s, "security:apikey") {
+									n++
+									c.Failf(rule, fmt.Sprintf("%s#%s", f.Name, an.Src(c.Fset, call)), call.Pos(), "inside the API-key arm of a switch over a scheme's kind the payload is searched under the constant key %q: that matches the key attribute of any API-key scheme, not the one being handled", s)
+								}
+								continue
+							}
+							b, ok := an.Unparen(a).(*ast.BinaryExpr)
+							if !ok || b.Op != token.ADD {
+								continue
+							}
+							s, ok := an.ConstString(info, b.X)
+							if !ok || !strings.HasPrefix(s, "security:apikey") {
+								continue
+							}
+							n++
+							sel, isSel := an.Unparen(b.Y).(*ast.SelectorExpr)
+							good := isSel && sel.Sel.Name == "SchemeName" && s == "security:apikey:"
+							c.Check(good, rule, fmt.Sprintf("%s#%s", f.Name, an.Src(c.Fset, a)), call.Pos(), "scheme-specific lookup keyed by the scheme's own name", "the API-key tag is not composed of \"security:apikey:\" and the handled scheme's SchemeName")
+						}
+						return true
+					})
+				}
+				return true
+			})
+		}
+	}
+	c.Floor(rule, n, 5, "API-key tag lookups inside scheme-specific arms")
 }
